@@ -1,6 +1,7 @@
 """C05 - operations act only on their target modes (structural clauses)."""
 from . import common_backend as B
 from . import common_gauss as G
+from . import c01
 
 
 def rules(ctx):
@@ -11,6 +12,7 @@ def rules(ctx):
     B.bosonic_footprint(ctx, "C05.bosonic-footprint")
     B.mode_routing(ctx, "C05.mode-routing")
     B.prep_reset(ctx, "C05.prep-reset")
+    c01.layout(ctx, "C05.fock-layout")
     ctx.floor("C05.gauss-footprint", 40)
     ctx.floor("C05.gauss-deadstore", 40)
     ctx.floor("C05.gauss-coverage", 14)
